@@ -16,6 +16,7 @@ RULE = ('every mnemonic of the assembler vocabulary (x86mndb.mnemo_lookup with t
         'AT&T syntax as the reference spelling (objdump -M att of GNU as\'s encoding) plus a direct AT&T generator for ALU immediates, plus a memory-operand grid (base x index incl. base == index x scale x displacement, 3 templates quick / 8 thorough). All candidates of '
         'each accepted line are examined. A case = (syntax, line); non-trivial = miasmX returned >= 1 candidate; classes = (syntax, mnemonic, shape, immediate class).')
 RULE += " Round 6: symbol-relative operands in nine spellings (N+sym[regs], -N+sym[regs], sym[regs+N], sym[regs-N], N[regs], N[regs+M] ...) with one and two registers; an 'optimised' shard sends the boundary lines and a third of the Intel corpus through a child interpreter started with -O and demands exactly the candidates of the normal interpreter (a range check may not live in an assert)."
+RULE += ' Round 7: AT&T symbol differences with an addend ((a-b)-N, (a-b)+N, a-b-N, N+a-b ...) in displacement and immediate positions, the reference assembly defining the two symbols as absolute zero.'
 ASSUMPTIONS = ['GNU as 2.40 (--32) defines what a line denotes and whether an immediate fits (error or "shortened" warning = does not fit); objdump 2.40 reads the candidates',
                'when GNU as rejects a line miasmX accepts, only self-consistency is checked (one full-length instruction, all candidates with the same reference text)']
 
